@@ -84,7 +84,11 @@ def write_fil_set(dirpath, data, nbits, splits, tsamp=0.001, tstart=58000.0, nam
     files, pos = [], 0
     for i, n in enumerate(splits):
         p = Path(dirpath) / f"{name}{i}.fil"
-        write_fil(p, data[pos:pos + n], nbits, tsamp=tsamp, tstart=tstart + pos * tsamp / 86400.0, **hdr)
+        # members of one observation legitimately differ in `rawdatafile` (match_header exempts it), hence in
+        # header length: every member gets its own, so that no code path may assume equal header lengths
+        extra = dict(hdr.pop("extra", None) or {})
+        extra.setdefault("rawdatafile", ("str", "raw_" + "x" * ((i * 7) % 11) + f"{i}.dada"))
+        write_fil(p, data[pos:pos + n], nbits, tsamp=tsamp, tstart=tstart + pos * tsamp / 86400.0, extra=extra, **hdr)
         files.append(str(p))
         pos += n
     return files
